@@ -16,3 +16,8 @@ def main(tier, seed):
                           builders=[C.b_normalized, C.b_types], N=5 if tier == "quick" else 8,
                           assumptions=["user-declared types are taken as given (not checked)",
                                        "infinite-state programs are explored to depth N only; finite-state ones until the reachable set closes when that happens within N"])
+
+
+def replay(path):
+    from ..driver import replay_analysis
+    return replay_analysis("C05", path, want=["normalized", "types"], builders=[C.b_normalized, C.b_types], N=5, variants=[("", {}), ("-fp1", {"type_fp_iterations": 1}), ("-fp2", {"type_fp_iterations": 2})])
